@@ -21,7 +21,7 @@ for sid in ids:
     try:
         for c in checks:
             t0 = time.time()
-            env = dict(os.environ); env['VERIF_NO_REPLAY_WRITE'] = '1'
+            env = dict(os.environ); env['VERIF_NO_REPLAY_WRITE'] = '1'; env['VERIF_EVIDENCE_DIR'] = os.path.join(ROOT, 'build', 'evidence_scratch')
             p = subprocess.run(['python3', os.path.join(ROOT, 'simctl.py'), 'check', c, '--tier', 'quick', '--budget-s', budget], stdout=subprocess.PIPE, stderr=subprocess.STDOUT, text=True, cwd=ROOT, env=env)
             classes = re.findall(r'class=(\S+)', p.stdout)
             res[c] = {'exit': p.returncode, 'classes': sorted(set(classes)), 'wall_s': round(time.time() - t0, 1), 'harness_errors': len(re.findall(r'HARNESS-ERROR', p.stdout))}
